@@ -1263,3 +1263,20 @@ func (g *Gen) finish(t *rapid.T, s *spec) *TxMeta {
 	m.Raw = raw
 	return m
 }
+
+// SignedSend builds a signed Send transaction directly (used by deterministic regressions).
+func SignedSend(w *World, from *User, nonce uint64, to types.Address, coin uint64, value *big.Int, gasCoin uint64, gasPrice uint32) []byte {
+	data, err := rlp.EncodeToBytes(tx.SendData{Coin: types.CoinID(coin), To: to, Value: value})
+	if err != nil {
+		panic(err)
+	}
+	t := tx.Transaction{Nonce: nonce, ChainID: w.ChainID, GasPrice: gasPrice, GasCoin: types.CoinID(gasCoin), Type: tx.TypeSend, Data: data, SignatureType: tx.SigTypeSingle}
+	if err := t.Sign(from.Key); err != nil {
+		panic(err)
+	}
+	raw, err := rlp.EncodeToBytes(t)
+	if err != nil {
+		panic(err)
+	}
+	return raw
+}
